@@ -73,7 +73,13 @@ def run_verus(path, seed, rlimit, only_fn=None, threads=None):
     if only_fn:
         cmd += ["--verify-root", "--verify-function", only_fn]
     t0 = time.time()
-    p = subprocess.run(cmd, cwd=os.path.dirname(path), capture_output=True, text=True)
+    # the verifier process itself occasionally dies under load ("thread caused non-unwinding panic", no result json):
+    # that says nothing about the code — retry before reporting the run as undecided
+    for attempt in range(3):
+        p = subprocess.run(cmd, cwd=os.path.dirname(path), capture_output=True, text=True)
+        if '"verification-results"' in p.stdout:
+            break
+        time.sleep(1 + attempt)
     wall = time.time() - t0
     diags = []
     for line in p.stderr.split("\n"):
